@@ -142,6 +142,15 @@ func (e *Exec) execStmt(s ast.Stmt, st *State, ctx *Ctx, k func(*State)) {
 		}
 		e.unsupported(s.Pos(), "branch statement %s", s.Tok)
 	case *ast.DeferStmt:
+		if lit, ok := s.Call.Fun.(*ast.FuncLit); ok && len(s.Call.Args) == 0 && ctx.frame.fi == e.fi {
+			// defer func() { ... }(): runs at every return of this function, after the results are set
+			st.defers = append(st.defers, lit)
+			k(st)
+			return
+		}
+		if _, ok := s.Call.Fun.(*ast.FuncLit); ok {
+			e.unsupported(s.Pos(), "deferred function literal with arguments or inside an inlined function")
+		}
 		e.note("defer " + exprString(s.Call) + " is ignored (resource release)")
 		k(st)
 	default:
